@@ -20,6 +20,9 @@ TOKENS = {"plus": "+", "minus": "-", "d": "7", "dd": "12", "zero": "0", "dlong":
 MC_STR = {"sA": "foo", "sInt": "1", "sFlt": "1.5", "sExp": "1e3", "sBool": "true", "sDate": "2020-01-02",
           "sTime": "10:20:30", "sDT": "2020-01-02T10:20:30", "sHuge": "9" * 320}
 
+# strings that are detected with every registry, whatever the sampling stride
+ALWAYS = {"12:" + "9" * 320, "1234567890123456789012:00", "9" * 25 + "-01-02", "9" * 320, "1e309", "", " 12 ", "1_000"}
+
 CFG_GRAMMAR = """SPECIFICATION Spec
 CONSTANTS
   MaxTok = %d
@@ -130,7 +133,8 @@ def strtypes_traces(chk, corpus, configs, extra_orders, detect_stride=1):
         st = reg_state(reg)
         # detection of every corpus string with this registry
         dets = []
-        for s, sid in list(zip(corpus, ids))[::detect_stride]:
+        picked = [(s, sid) for k, (s, sid) in enumerate(zip(corpus, ids)) if k % detect_stride == 0 or s in ALWAYS]
+        for s, sid in picked:
             try:
                 t = gen._detect_type(s)
                 dets.append({"ev": "Detect", "s": sid, "detected": t.__name__ if isinstance(t, type) else "",
